@@ -2039,8 +2039,12 @@ func authMethodToBitmask(method AuthMethod) int {
 	case AuthSciTokens:
 		return AuthBitmaskSciTokens
 	case AuthIDTokens:
-		// IDTokens not defined in HTCondor's condor_auth.h, map to SciTokens for compatibility
-		return AuthBitmaskSciTokens
+		// IDTOKENS is HTCondor's other spelling of TOKEN (SecMan maps "TOKEN",
+		// "TOKENS", "IDTOKEN" and "IDTOKENS" all to CAUTH_TOKEN) and runs the same
+		// exchange, so it shares TOKEN's bit. Sharing SCITOKENS' bit made two
+		// endpoints that both list IDTOKENS and SCITOKENS run different exchanges
+		// against each other whenever their orders differed.
+		return AuthBitmaskToken
 	default:
 		return 0
 	}
